@@ -4,6 +4,7 @@ import random
 
 from common import *  # noqa
 import framework as fw
+import frames
 
 MODULE = "LWV.Props.C05"
 
@@ -16,7 +17,7 @@ def alphabet():
         for l in (0, 1, 2):
             ops.append("a:%d:%s" % (n, ("%02x" % (0x40 + n % 16)) * l if l else "-"))
         ops.append("r:%d" % n)
-    ops += ["s:-", "s:41", "s:4142", "c:1", "c:0", "k:0", "k:3"]
+    ops += ["a:221:0041", "s:-", "s:41", "s:4142", "c:1", "c:0", "k:0", "k:3"]
     return ops
 
 
@@ -35,7 +36,7 @@ def random_history(rnd):
         n = rnd.choice(NUMS + [1, 48, 255, rnd.randrange(256)])
         if r < 0.45:
             l = rnd.choice([0, 1, 2, 3, 31, 32, 33, 100, 255, rnd.randrange(256)])
-            ops.append("a:%d:%s" % (n, bytes(rnd.randrange(1, 256) for _ in range(l)).hex() or "-"))
+            ops.append("a:%d:%s" % (n, frames.tag_body(rnd, l).hex() or "-"))
         elif r < 0.7:
             ops.append("r:%d" % n)
         elif r < 0.8:
